@@ -69,10 +69,11 @@ fn one(src: &str, stream: &str) -> Option<Case> {
     if nums.iter().any(|v| { let t = v.to_string(); t.len() >= 12 }) { c.tags.push("long-number-literal".into()); }
     if nums.iter().any(|v| *v != 0.0 && v.abs() < 1e-8) { c.tags.push("tiny-number-literal".into()); }
     if nums.iter().any(|v| v.abs() >= 1e9) { c.tags.push("large-number-literal".into()); }
+    c.tags.push(if syntax::in_fragment(&pm, false) { "format-fragment:in".into() } else { "format-fragment:out".into() });
     c.req = format!("format {}", before);
     c.imp = format!("(ok {})", sx::q(&f1));
     c.show = src.to_string();
-    c.tags = vec![stream.into()];
+    c.tags.insert(0, stream.into());
     // --- implementation-side facts handed to the oracle
     let f1c = f1.clone();
     let re = std::panic::catch_unwind(move || RoocParser::new(f1c).parse());
@@ -156,19 +157,50 @@ fn number_literals(pm: &rooc::pre_model::PreModel, out: &mut Vec<f64>) {
     }
 }
 
-/// the same program through the program-level parser model (fragment without iterations): tree or rejection
+/// does the `(ok (premodel …))` answer carry a primitive the model does not display (`(other …)`, an array other than
+/// an integer / empty one)?
+fn model_declines_tree(imp: &str) -> bool {
+    if imp.contains("(other ") { return true; }
+    let mut rest = imp;
+    while let Some(k) = rest.find("(prim \"") {
+        let body = &rest[k + 7..];
+        let end = body.find('"').unwrap_or(body.len());
+        let d = &body[..end];
+        let inner = d.trim_start_matches('[').trim_end_matches(']');
+        let ok = d.starts_with('[') && d.ends_with(']') && !inner.contains('[')
+            && (inner.is_empty() || inner.split(", ").all(|x| !x.is_empty() && x.chars().all(|c| c.is_ascii_digit()))
+                || inner.split(", ").all(|x| x == "true" || x == "false"));
+        if !ok { return true; }
+        rest = &body[end..];
+    }
+    false
+}
+
+/// the same program through the program-level parser model: tree (with its fragment verdict) or the class of the rejection
 fn parse_case(src: &str, stream: &str) -> Option<Case> {
-    if !syntax::in_program_fragment(src) { return None; }
+    if !syntax::lex_supported(src) || syntax::has_glued_keyword(src) { return None; }
     let s = src.to_string();
+    let mut c = Case::default();
     let imp = match std::panic::catch_unwind(move || RoocParser::new(s).parse()) {
-        Ok(Ok(pm)) => format!("(ok {})", syntax::pre_model_lex(&pm, src)),
-        Ok(Err(_)) => "(err reject)".to_string(),
+        Ok(Ok(pm)) => {
+            let inside = syntax::in_fragment(&pm, true);
+            c.tags.push(if inside { "fragment:in".into() } else { "fragment:out".into() });
+            format!("(ok {} {})", syntax::pre_model_lex(&pm, src), if inside { "in-fragment" } else { "out-of-fragment" })
+        }
+        Ok(Err(e)) => { let k = syntax::error_class(&e); c.tags.push(format!("program-rejected:{}", k)); format!("(err reject {})", k) }
         Err(_) => "(err panic)".to_string(),
     };
-    let mut c = Case::default();
+    if imp.starts_with("(ok") && model_declines_tree(&imp) { return None; }
     c.req = format!("parse-program {}", sx::q(src));
-    c.tags = vec!["parse-program".into(), format!("parse-program:{}", stream), if imp.starts_with("(ok") { "program-accepted".into() } else { "program-rejected".into() }];
-    c.nontrivial = imp.contains("(bin ") || imp.contains("(un ");
+    // classification of a known defect when the two parses differ (ranges nested in the lower bound of a range)
+    if imp.starts_with("(ok") && src.matches("..").count() >= 2 { c.oracle = format!("check-parse {} {}", sx::q(src), imp); }
+    c.tags.extend(["parse-program".to_string(), format!("parse-program:{}", stream), if imp.starts_with("(ok") { "program-accepted".into() } else { "program-rejected".into() }]);
+    for (k, t) in [("(cvar ", "pp:compound-var"), ("(access ", "pp:array-access"), ("(block ", "pp:block-fn"), ("(scoped ", "pp:scoped-fn"), ("(it ", "pp:iteration"),
+                   ("(prim ", "pp:array"), ("(str ", "pp:string"), ("(cv ", "pp:compound-decl"), ("(tuple ", "pp:tuple-iteration"), ("(intrange ", "pp:integer-range"),
+                   ("(nnreal ", "pp:nonneg-real-bounds"), ("(real ", "pp:real-bounds"), ("(c (", "pp:named-constraint"), ("(let ", "pp:constants")] {
+        if imp.contains(k) { c.tags.push(t.into()); }
+    }
+    c.nontrivial = imp.contains("(bin ") || imp.contains("(un ") || imp.contains("(scoped ") || imp.contains("(block ");
     c.imp = imp;
     c.show = format!("parse-program\n{}", src);
     Some(c)
@@ -241,7 +273,7 @@ pub fn generate(seed: u64, n: usize, thorough: bool, corpus: Option<&str>) -> Ve
     let mut push = |src: String, stream: &str, cases: &mut Vec<Case>| {
         if !seen.insert(src.clone()) { return; }
         // the program-level parser model: the source, its formatted text, and a mutation of either
-        if stream != "repo-programs" && stream != "templates" && stream != "templates-graph" {
+        {
             if let Some(c) = parse_case(&src, stream) { cases.push(c) }
             let s2 = src.clone();
             if let Ok(Ok(f1)) = std::panic::catch_unwind(move || RoocParser::new(s2).format()) {
@@ -332,8 +364,82 @@ pub fn generate(seed: u64, n: usize, thorough: bool, corpus: Option<&str>) -> Ve
         for nm in names { push(program(&format!("min {}", nm), &[format!("{} >= 1", nm)], &[nm], "Real"), "names", &mut cases); }
     }
 
+    // --- printer edges: `range(a, b, <bool>)` calls outside an iterator, arrays that mix integer and decimal entries,
+    //     decimal / string indexes of compound variables, nested ranges in the lower bound of a range
+    for (i, e) in ["len(range(0, 3, false))", "len(range(1, n, true)) + 1", "sum(i in union(range(0, 2, false), range(5, 7, true))) { i }",
+                   "len(zip(range(0, 2, false), range(0, 2, false)))", "sum(i in range(0, 3, false)) { i }", "sum(i in range(0, n, true), j in 0..i) { j }",
+                   "x_{1.5}", "x_{0.5}_i + x_{2.0}", "x_{\"a\"} + 1", "x_{1}_{2} + x_{n + 1}", "sum(i in sum(j in 0..2) { j }..5) { i }",
+                   "sum(i in min { sum(j in 0..n) { j }, 1 }..=n) { i }"].iter().enumerate() {
+        push(format!("min {}\ns.t.\n    y >= 1\nwhere\n    let n = 2\n    let i = 0\ndefine\n    y as Real\n", e), "printer-edges", &mut cases);
+        push(format!("min y\ns.t.\n    c{}: y >= {}\nwhere\n    let n = 2\n    let i = 0\ndefine\n    y as Real\n", i, e), "printer-edges", &mut cases);
+    }
+    for a in ["[1, 2.5, 3]", "[1.0, 2]", "[1, true]", "[\"a\", 1]", "[1, 2.0]", "[0.5, 1, 2]", "[[1, 2.5], [3, 4]]", "[true, 1.5]", "[1, [2]]"] {
+        push(format!("min y\ns.t.\n    y >= len(c)\nwhere\n    let c = {}\ndefine\n    y as Real\n", a), "printer-edges", &mut cases);
+        push(format!("min y + len({})\ns.t.\n    y >= 1\ndefine\n    y as Real\n", a), "printer-edges", &mut cases);
+    }
+    // constants that are not named (`let _ = e`, 67931d1) and the lone `_` elsewhere
+    for d in ["let _ = 1 + 2", "let _ = y[0]\n    let y = [1, 2]", "let _ = 5\n    let _ = 6", "let k = 2\n    let _ = k * (k + 1)", "let _ = sum(i in 0..2) { i }",
+              "let _ = _", "let _x = 1", "let x_ = 1"] {
+        push(format!("min y\ns.t.\n    y >= 1\nwhere\n    {}\ndefine\n    y as Real\n", d), "unnamed-constants", &mut cases);
+    }
+    for c in ["_ >= 1", "y >= _", "_: y >= 1", "y >= sum(_ in 0..2) { 1 }", "y >= sum((_, v) in edges(G)) { v }", "y >= _[0]", "y >= 2_", "y >= _(1)"] {
+        push(format!("min y\ns.t.\n    {}\ndefine\n    y as Real\n", c), "unnamed-constants", &mut cases);
+    }
+    for d in ["let r = range(0, 3, false)", "let r = range(0, 3, true)", "let r = union(range(0, 2, false), [5, 6])"] {
+        push(format!("min y\ns.t.\n    y >= len(r)\n    y >= sum(i in r) {{ i }}\nwhere\n    {}\ndefine\n    y as Real\n", d), "printer-edges", &mut cases);
+    }
+
+    // --- MALFORMED programs, by class: every error of the AST builders at every position of a program, pairs of errors
+    //     (which one is reported first), and texts the grammar refuses; parsed by the implementation and by the parser
+    //     model, the CLASS of the rejection is compared (tags `program-rejected:<class>`)
+    let big = "99999999999999999999";
+    let frame = |obj: &str, cons: &str, decl: &str| format!("{}\ns.t.\n    {}\n{}", obj, cons, decl);
+    let malformed: Vec<String> = vec![
+        // objective kind in the wrong letter case (pest matches ^"min", the builder only knows "min")
+        frame("MIN x", "x >= 1", ""), frame("Max x", "x >= 1", ""), frame("SOLVE", "x >= 1", ""), frame("Solve", "x >= 1", ""), frame("mIn x", "x >= 1", ""),
+        // integer beyond i64 at every position of a program
+        frame(&format!("min {}", big), "x >= 1", ""), frame("min x", &format!("x >= {}", big), ""), frame("min x", &format!("{} >= x", big), ""),
+        frame("min x", &format!("c_{}: x >= 1", big), ""), frame("min x", &format!("c_{{{}}}: x >= 1", big), ""),
+        frame("min x", &format!("x >= 1 for i in 0..{}", big), ""), frame("min x", &format!("x >= 1 for i in {}..3", big), ""),
+        frame("min x", &format!("x_i >= 1 for i in 0..3, j in 0..{}", big), ""),
+        frame("min x", "x >= k", &format!("where\n    let k = {}\n", big)), frame("min x", "x >= k", &format!("where\n    let k = [1, {}]\n", big)),
+        frame("min x", "x >= 1", &format!("define\n    x as Real({}, 1)\n", big)), frame("min x", "x >= 1", &format!("define\n    x as Real(0, {})\n", big)),
+        frame("min x", "x >= 1", &format!("define\n    x as Real(0, 1, {})\n", big)), frame("min x", "x >= 1", &format!("define\n    x as IntegerRange(0, {})\n", big)),
+        frame("min x", "x >= 1", &format!("define\n    x_{} as Real\n", big)), frame("min x", "x >= 1", &format!("define\n    x_i as Real for i in 0..{}\n", big)),
+        frame("min x", "x >= 1", &format!("define\n    x_{{{}}}, y as Boolean\n", big)),
+        // unknown variable type, IntegerRange without both bounds
+        frame("min x", "x >= 1", "define\n    x as Foo\n"), frame("min x", "x >= 1", "define\n    x as Integer\n"), frame("min x", "x >= 1", "define\n    x as real\n"),
+        frame("min x", "x >= 1", "define\n    x as Foo(1, 2)\n"), frame("min x", "x >= 1", "define\n    x as Boolean(0, 1)\n"), frame("min x", "x >= 1", "define\n    x as IntegerRange\n"),
+        frame("min x", "x >= 1", "define\n    x as IntegerRange(1)\n"), frame("min x", "x >= 1", "define\n    x as IntegerRange(1, 2, 3)\n"), frame("min x", "x >= 1", "define\n    x as Real(1)\n"),
+        frame("min x", "x >= 1", "define\n    x as NonNegativeReal(1, 2, 3)\n"),
+        // unknown / wrong-arity blocks inside a program
+        frame("min foo { x }", "x >= 1", ""), frame("min x", "foo(i in 0..2) { x } >= 1", ""), frame("min x", "x >= abs { 1, 2 }", ""),
+        frame("min x", "x >= 1 for i in foo { 1 }..2", ""), frame("min x", "x >= 1", "define\n    x as Real(abs { 1, 2 }, 3)\n"),
+        // two errors: the first in the order of the builders (objective, constraints (name, iteration, sides), constants, domains
+        // (variables, type, iteration))
+        frame("MIN x", &format!("x >= {}", big), ""), frame(&format!("min {}", big), "foo { 1 } >= 1", ""), frame("min x", &format!("foo {{ 1 }} >= {}", big), ""),
+        frame("min x", &format!("{} >= 1 for i in 0..foo {{ 1 }}", big), ""), frame("min x", &format!("c_{}: foo {{ 1 }} >= 1", big), ""),
+        frame("min x", &format!("x >= {}", big), "define\n    x as Foo\n"), frame("min x", "x >= k", &format!("where\n    let k = {}\ndefine\n    x as Foo\n", big)),
+        frame("min x", "x >= 1", &format!("define\n    x as Foo({})\n", big)), frame("min x", "x >= 1", &format!("define\n    x as Foo for i in 0..{}\n", big)),
+        frame("min x", "x >= 1", &format!("define\n    x_{} as Foo\n", big)), frame("min x", "x >= 1", &format!("define\n    x as IntegerRange({})\n", big)),
+        frame("min x", "x >= 1", &format!("define\n    x as Real\n    y as Foo\n    z as Real({}, 1)\n", big)),
+        // refused by the grammar
+        frame("min", "x >= 1", ""), frame("minimize x", "x >= 1", ""), frame("min x", "", ""), "min x\n".to_string(), "min x\ns.t.".to_string(), "s.t.\n    x >= 1\n".to_string(),
+        frame("min x", "x >= 1 >= 0", ""), frame("min x", "x >= ", ""), frame("min x", ">= 1", ""), frame("min x", "c: ", ""), frame("min x", ": x >= 1", ""),
+        frame("min x", "x >= 1 for", ""), frame("min x", "x >= 1 for i", ""), frame("min x", "x >= 1 for i in", ""), frame("min x", "x >= 1 for i in 0..", ""),
+        frame("min x", "x >= 1 for i in 0..3,", ""), frame("min x", "x >= 1 for (i, j) 0..3", ""), frame("min x", "x >= 1 for i in 0..3 for j in 0..2", ""),
+        frame("min x", "x >= 1", "where\n"), frame("min x", "x >= 1", "where\n    let k\n"), frame("min x", "x >= 1", "where\n    let k =\n"), frame("min x", "x >= 1", "where\n    k = 2\n"),
+        frame("min x", "x >= 1", "where\n    let 2 = k\n"), frame("min x", "x >= 1", "define\n    x\n"), frame("min x", "x >= 1", "define\n    x as\n"), frame("min x", "x >= 1", "define\n    x Real\n"),
+        frame("min x", "x >= 1", "define\n    x, as Real\n"), frame("min x", "x >= 1", "define\n    x as Real(\n"), frame("min x", "x >= 1", "define\n    x as Real(1,)\n"),
+        frame("min x", "x >= 1", "define\n    x as Real()\n"), frame("min x", "x >= 1", "define\n    x as Real for\n"), frame("min x", "x >= 1", "define\n    x as min\n"),
+        frame("min x", "x >= 1", "define\n    x as Real\nwhere\n    let k = 1\n"), frame("min x", "x >= 1", "where\n    let k = 1\nwhere\n    let j = 1\n"),
+        frame("min x", "", "where\n    let k = 1\n"), frame("min x", "", "define\n    x as Real\n"), frame("min x max y", "x >= 1", ""), frame("min x", "x >= 1\n    max y", ""),
+    ];
+    let mut extra: Vec<Case> = vec![];
+    for t in malformed { if let Some(c) = parse_case(&t, "malformed-by-class") { extra.push(c) } }
+
     // --- random programs over the expression sub-language (random spelling, parentheses, spacing)
-    let core = GenCfg { calls: false, odd_words: false, bools: true };
+    let core = GenCfg { calls: false, odd_words: false, bools: true, blocks: false };
     let mut made = 0;
     while made < n {
         made += 1;
@@ -354,7 +460,7 @@ pub fn generate(seed: u64, n: usize, thorough: bool, corpus: Option<&str>) -> Ve
     }
 
     // --- declarations, blocks, iterations: templates with random expressions in their slots
-    let slot = GenCfg { calls: false, odd_words: false, bools: false };
+    let slot = GenCfg { calls: false, odd_words: false, bools: false, blocks: false };
     let subst = |e: &str| e.replace('x', "x_i").replace('y', "v[i]").replace('z', "n").replace('w', "x_{i + 1}").replace('a', "q").replace('b', "len(v)").replace('c', "x_0").replace('d', "m[i][0]");
     let m = if thorough { n / 2 } else { n / 6 };
     for _ in 0..m {
@@ -378,5 +484,6 @@ pub fn generate(seed: u64, n: usize, thorough: bool, corpus: Option<&str>) -> Ve
             r.pick(&["<=", ">=", "=", "<", ">"]), r.pick(&["2", "3"]), r.pick(&["Boolean", "NonNegativeReal", "Real(0, 1)"]), r.pick(&["Real", "NonNegativeReal(0, 10)"]));
         push(t2, "templates-graph", &mut cases);
     }
+    cases.extend(extra);
     cases
 }
